@@ -79,6 +79,12 @@ func vC08History(sel int, id string) {
 	case 6: // error group: pooled per-element wrappers
 		c := NewCore(NewJSONEncoder(vC08Cfg), sink, DebugLevel)
 		_ = c.Write(full, []Field{{Key: "errs", Type: ErrorType, Interface: vErrGroup{"grp", []error{errors.New("e1"), errors.New("e2"), errors.New("e3")}}}})
+	case 8: // a sink that fails: the core reports the error (and must still let go of its buffer exactly once)
+		c := NewCore(NewJSONEncoder(vC08Cfg), vC08FailSink{}, DebugLevel)
+		_ = c.Write(full, []Field{{Key: "k", Type: Int64Type, Integer: 8}})
+		if ce := c.Check(full, nil); ce != nil {
+			ce.Write()
+		}
 	case 7: // the same shape as the observed call, other values
 		c := NewCore(NewJSONEncoder(vC08Cfg), sink, DebugLevel).With([]Field{{Key: "ctx", Type: StringType, String: "other"}})
 		if ce := c.Check(full, nil); ce != nil {
@@ -87,12 +93,17 @@ func vC08History(sel int, id string) {
 	}
 }
 
+type vC08FailSink struct{}
+
+func (vC08FailSink) Write(p []byte) (int, error) { return 0, errors.New("sink failed") }
+func (vC08FailSink) Sync() error                 { return nil }
+
 // vC08Hook must run for the history entry it was attached to, never for a later entry that reuses the pooled CheckedEntry.
 type vC08Hook struct{}
 
 func (vC08Hook) OnWrite(ce *CheckedEntry, _ []Field) { vrt.Event("history-hook:" + ce.Message) }
 
-const vC08HistoryMenu = 8
+const vC08HistoryMenu = 9
 
 // vC08NondetGets: how many of the observed call's first sync.Pool.Get calls are nondeterministic.
 const vC08NondetGets = 4
@@ -154,9 +165,9 @@ func vC08Case(nHist int, fieldMenu, ctxMenu, histMenu []int) {
 	vrt.Cover("done")
 }
 
-//verif: prop=C08 bounds="observed call: JSON or console ioCore with 1 context field (number, open namespace or reflected value) and 1 call-site field (lite menu: number, string, namespace, object, array, inline, failing marshalers; plus reflected values), 1 symbolic message letter, through Write or Check+Write; first on empty pools, then after 1 history operation from an 8-entry menu (long nested JSON entry with namespaces left open, reflected values, marshalers failing midway, console entry, 3-core checked entry with after-hook, error group, same-shaped call with other values) with each of the first 4 sync.Pool.Get calls of the observed call returning the newest pooled object, the oldest one or a new one (thorough: first 6 Gets, any pooled object), later ones and the history itself reusing last-in-first-out: byte-identical output"
+//verif: prop=C08 bounds="observed call: JSON or console ioCore with 1 context field (number, open namespace or reflected value) and 1 call-site field (lite menu: number, string, namespace, object, array, inline, failing marshalers; plus reflected values), 1 symbolic message letter, through Write or Check+Write; first on empty pools, then after 1 history operation from a 9-entry menu (long nested JSON entry with namespaces left open, reflected values, marshalers failing midway, console entry, 3-core checked entry with after-hook, error group, same-shaped call with other values, entries written to a sink that fails) with each of the first 4 sync.Pool.Get calls of the observed call returning the newest pooled object, the oldest one or a new one (thorough: first 6 Gets, any pooled object), later ones and the history itself reusing last-in-first-out: byte-identical output"
 func VC08History1() {
-	vC08Case(1, append(append([]int{}, vLiteMenu...), 25), []int{0, 16, 25}, []int{0, 1, 2, 3, 4, 5, 6, 7})
+	vC08Case(1, append(append([]int{}, vLiteMenu...), 25), []int{0, 16, 25}, []int{0, 1, 2, 3, 4, 5, 6, 7, 8})
 }
 
 //verif: prop=C08 tier=thorough bounds="as VC08History1 with the full 26-template field menu (all inner variants), a numeric context field and the history menu {long nested JSON entry, console entry, same-shaped call}"
